@@ -1,7 +1,9 @@
 package props
 
 import (
+	"encoding/json"
 	"fmt"
+	"sort"
 	"strings"
 	"sync"
 	"time"
@@ -21,9 +23,35 @@ var c04Patterns = []string{"single", "twice", "concurrent3", "race-client", "cle
 func init() {
 	Register(&Prop{ID: "C04",
 		Meta: Meta{Level: "fault_enumeration",
-			Rule:       "matrix: plugin shutdown behaviour {exits at once; cleanup of 0/100/500/1500ms then exit writing a marker file; ignores the request; frozen by SIGSTOP; already crashed; busy in a call; never connected; failed handshake} x protocol {net/rpc, gRPC, gRPC+mux} x launch {command, custom runner, reattach} x call pattern {Kill; Kill twice; 3 concurrent Kill; Kill racing Client(); CleanupClients over 3 managed clients in mixed states}, plus Kill / CleanupClients issued at 7 offsets while another goroutine's Start still waits for the handshake of a plugin that stays silent, writes a bad line late, exits late or serves late, each cell run fault-free and (seeded part) with schedule noise in Client.Kill/Close paths and socket latency; oracle: Kill returns within 60s simulated (+ injected delay), afterwards the process has exited and was reaped and Exited() is true, a plugin that exits <=500ms after the request received no SIGKILL and its cleanup marker exists, one that never exits received SIGKILL, no panic",
+			Rule:       "matrix: plugin shutdown behaviour {exits at once; cleanup of 0/100/500/1500ms then exit writing a marker file; ignores the request; frozen by SIGSTOP; already crashed; busy in a call; never connected; failed handshake} x protocol {net/rpc, gRPC, gRPC+mux} x launch {command, custom runner, reattach} x call pattern {Kill; Kill twice; 3 concurrent Kill; Kill racing Client(); CleanupClients over 3 managed clients in mixed states}, plus a SECOND Kill / CleanupClients issued exactly while the first Kill is at statement S, for every go-plugin statement the first Kill passes (profiled in stage 0; plugin exits at once / after 100 or 500 ms of cleanup / never), plus Kill / CleanupClients issued at 7 offsets while another goroutine's Start still waits for the handshake of a plugin that stays silent, writes a bad line late, exits late or serves late, each cell run fault-free and (seeded part) with schedule noise in Client.Kill/Close paths and socket latency; oracle: Kill returns within 60s simulated (+ injected delay), afterwards the process has exited and was reaped and Exited() is true, a plugin that exits <=500ms after the request received no SIGKILL and its cleanup marker exists, one that never exits received SIGKILL, no panic",
 			Exhaustive: "the behaviour x protocol x launch x call-pattern matrix (valid cells)"},
 		Plan: func(tier string, seed uint64, stage int, prev []*h.Result) []*k.Spec {
+			if stage == 1 && tier != "selftest" {
+				// a second Kill (or CleanupClients) issued exactly while the first
+				// Kill is at statement S, for every statement the first one passes
+				maxOcc := 1
+				if tier == "thorough" {
+					maxOcc = 3
+				}
+				var out []*k.Spec
+				for _, pr := range prev {
+					if pr.Spec == nil || pr.Spec.P("pat", "") != "preempt-kill" || !pr.Spec.Profile {
+						continue
+					}
+					var sites []opSite
+					json.Unmarshal([]byte(pr.Info["opsites"]), &sites)
+					for _, st := range sites {
+						for occ := st.First; occ <= st.Last && occ < st.First+maxOcc; occ++ {
+							for _, via := range []string{"kill", "cleanup"} {
+								s := sp("C04", fmt.Sprintf("preempt-kill/%s/%s/%s#%d/%s", confLabel(pr.Spec.Params), pr.Spec.P("beh", ""), st.Site, occ, via), seed, cp(pr.Spec.Params, "via", via))
+								s.Triggers = []*k.Trigger{{On: "site", Proc: "host", Key: st.Site, Occ: occ, Act: "callsleep:kill2:1000000"}}
+								out = append(out, s)
+							}
+						}
+					}
+				}
+				return out
+			}
 			if stage > 0 {
 				return nil
 			}
@@ -57,6 +85,16 @@ func init() {
 				})
 			}
 			var out []*k.Spec
+			for _, conf := range c03Confs[:3] {
+				for _, beh := range []string{"prompt", "cleanup:100ms", "cleanup:500ms", "ignore"} {
+					if tier != "thorough" && beh == "cleanup:500ms" {
+						continue
+					}
+					s := sp("C04", fmt.Sprintf("preempt-kill-profile/%s/%s", confLabel(conf), beh), seed, cp(conf, "launch", "cmd", "beh", beh, "pat", "preempt-kill"))
+					s.Profile = true
+					out = append(out, s)
+				}
+			}
 			for _, c := range cells {
 				out = append(out, sp("C04", fmt.Sprintf("cell/%s/%s/%s/%s", confLabel(c), c["launch"], c["beh"], c["pat"]), seed, c))
 			}
@@ -361,6 +399,45 @@ func runC04(r *h.Run) {
 		outs = append(outs, killOne(ps[0], "#after"))
 	case "cleanup-clients":
 		outs = append(outs, r.Do("CleanupClients", B+60*time.Second, func() (any, error) { plugin.CleanupClients(); return nil, nil }))
+	case "preempt-kill":
+		var wg sync.WaitGroup
+		var once sync.Once
+		var mu sync.Mutex
+		w.Callbacks = map[string]func(){"kill2": func() {
+			once.Do(func() {
+				wg.Add(1)
+				go k.Trap(func() {
+					defer wg.Done()
+					var o h.Outcome
+					if r.Spec.P("via", "kill") == "cleanup" {
+						o = r.Do("CleanupClients[second]", B+60*time.Second, func() (any, error) { plugin.CleanupClients(); return nil, nil })
+					} else {
+						o = killOne(ps[0], "#second")
+					}
+					mu.Lock()
+					outs = append(outs, o)
+					mu.Unlock()
+				})
+			})
+		}}
+		mark := w.SitePass()
+		o := killOne(ps[0], "#first")
+		mu.Lock()
+		outs = append(outs, o)
+		mu.Unlock()
+		wg.Wait()
+		if r.Spec.Profile {
+			var sites []opSite
+			for key, n := range w.SitePass() {
+				proc, site, ok := strings.Cut(key, " ")
+				if ok && proc == "host" && n > mark[key] {
+					sites = append(sites, opSite{Site: site, First: mark[key] + 1, Last: n})
+				}
+			}
+			sort.Slice(sites, func(i, j int) bool { return sites[i].Site < sites[j].Site })
+			js, _ := json.Marshal(sites)
+			r.Info["opsites"] = string(js)
+		}
 	}
 	injected := w.InjectedTotal() - inj0
 	for _, o := range outs {
